@@ -2,7 +2,8 @@
 """Confirm each sub-agent patch in a scratch worktree of /repo HEAD (demo passes unchanged, fails with the change,
 73 tests pass with the change) and store confirmed ones under /verif/seeded/<id>/."""
 import os, sys, json, subprocess, shutil
-SRC = '/tmp/wt_out'
+SRC = os.environ.get('SEED_SRC', '/tmp/wt_out')
+OFFSET = int(os.environ.get('SEED_OFFSET', '0'))      # round 2: SEED_SRC=/tmp/wt2_out SEED_OFFSET=2 -> seeded/<id>_3, _4
 WT = '/tmp/wt/verify'
 PY = '/venv/bin/python'
 
@@ -34,7 +35,7 @@ def main():
             rct, ot = sh('%s -m pytest -q -p no:cacheprovider --timeout=900 test 2>&1 | tail -1' % PY, cwd=WT, env=env) if rca == 0 else (None, '')
             sh('git checkout -q -- . && git clean -fdq', cwd=WT)
             ok = rc0 == 0 and rca == 0 and rc1 not in (0, None) and '73 passed' in ot
-            name = '%s_%d' % (pid, i)
+            name = '%s_%d' % (pid, i + OFFSET)
             summary[name] = dict(demo_clean_rc=rc0, apply_rc=rca, demo_patched_rc=rc1, tests=ot.strip(), confirmed=ok)
             print(name, summary[name], flush=True)
             if ok:
@@ -51,7 +52,12 @@ def main():
                          ran=['demo on clean tree: exit 0', 'git apply patch.diff', 'demo with patch: exit %s' % rc1, 'pytest: ' + ot.strip()])
                 json.dump(m, open(d + '/meta.json', 'w'), indent=1)
     sh('git -C /repo worktree remove --force %s' % WT)
-    json.dump(summary, open('/verif/seeded/verify_summary.json', 'w'), indent=1)
+    try:
+        old = json.load(open('/verif/seeded/verify_summary.json'))
+    except Exception:
+        old = {}
+    old.update(summary)
+    json.dump(old, open('/verif/seeded/verify_summary.json', 'w'), indent=1)
 
 
 main()
